@@ -146,6 +146,18 @@ def _install_once():
     fm = seams.FakeMultiprocessing(multiprocessing)
     # every module of the package: whichever of them holds the standard
     # modules (a refactoring may move pool creation or the command runner)
+    # ... also when single names were imported from them
+    by_identity = [
+        (multiprocessing.Pool, seams.SimPool),
+        (multiprocessing.Manager, seams.SimManager),
+        (_subprocess.Popen, seams.SimProc),
+        (_subprocess.run, seams.FakeSubprocess.run),
+        (_rtime.time, seams.FakeTime.time),
+        (_rtime.monotonic, seams.FakeTime.monotonic),
+        (_rtime.perf_counter, seams.FakeTime.perf_counter),
+        (_rtime.sleep, seams.FakeTime.sleep),
+        (os.getpid, seams._OsForTmpfiles.getpid),
+    ]
     for mod in _ddsmt_modules():
         for name, val in list(vars(mod).items()):
             if val is multiprocessing:
@@ -156,6 +168,11 @@ def _install_once():
                 setattr(mod, name, seams.FakeSubprocess)
             elif val is _resource:
                 _RESOURCE_SLOTS.append((mod, name))
+            else:
+                for real, fake in by_identity:
+                    if val is real:
+                        setattr(mod, name, fake)
+                        break
     if not _RESOURCE_SLOTS:
         _RESOURCE_SLOTS.append((m.checker, 'resource'))
     m.tmpfiles.os = seams._OsForTmpfiles()
